@@ -167,9 +167,11 @@ class AsyncClient(base_client.BaseClient):
             await self._trigger_event('disconnect',
                                       reason or self.reason.CLIENT_DISCONNECT,
                                       run_async=False)
-            if self.current_transport == 'websocket':
+            if self.current_transport == 'websocket' and self.ws:
                 await self.ws.close()
-            if not abort:
+            if not abort and self.read_loop_task:
+                # the task does not exist yet when called from the connect
+                # handler
                 await self.read_loop_task
             self.state = 'disconnected'
             try:
@@ -273,6 +275,9 @@ class AsyncClient(base_client.BaseClient):
         self.state = 'connected'
         base_client.connected_clients.append(self)
         await self._trigger_event('connect', run_async=False)
+        if self.state != 'connected':
+            # the application disconnected from the connect handler
+            return
 
         for pkt in p.packets[1:]:
             await self._receive_packet(pkt)
@@ -395,6 +400,10 @@ class AsyncClient(base_client.BaseClient):
             self.state = 'connected'
             base_client.connected_clients.append(self)
             await self._trigger_event('connect', run_async=False)
+            if self.state != 'connected':
+                # the application disconnected from the connect handler
+                await ws.close()
+                return True
 
         self.ws = ws
         self.write_loop_task = self.start_background_task(self._write_loop)
